@@ -169,6 +169,51 @@ theorem intLoop_shape (cfg : Cfg) (upper : Bool) : ∀ (k n : ℕ) (m : ℚ) (b 
       · simp [List.all_append, hall, cd]
       · exfalso; rw [h] at hm1; linarith
 
+/-- **the guard `str > &buff[0]` never fires**: under the measure hypotheses (`m < 8^k`, `k` free bytes) the guarded
+integer-digit loop of the repaired code computes exactly what the unguarded loop computes — it ends because
+`ip` has become 0, never because the buffer is full -/
+theorem intLoop_unguarded (cfg : Cfg) (upper : Bool) : ∀ (k n : ℕ) (m : ℚ) (b : Buf), 1 ≤ k → k ≤ n → 0 ≤ m → L.small m →
+    m < 8 ^ k → b.used + k ≤ cfg.size →
+    intLoop (arithP rnd p) cfg upper n (.fin false m) b =
+      intLoop (arithP rnd p) { cfg with repaired := false } upper n (.fin false m) b := by
+  intro k
+  induction k with
+  | zero => intro n m b h; omega
+  | succ k ih =>
+    intro n m b _ hkn h0 hs hlt hused
+    obtain ⟨n', rfl⟩ : ∃ n', n = n' + 1 := ⟨n - 1, by omega⟩
+    unfold intLoop
+    obtain ⟨c, hc, hc0, hc9, hceq⟩ := digit_ok L p h0
+    obtain ⟨w, hw, hw0, hws, hw8, hw9, hw10⟩ := div10_step L S p (s := false) h0 hs
+    have hput : putBody cfg b (digitChar upper c) = .ok { b with body := digitChar upper c :: b.body } := by
+      unfold putBody; rw [if_pos (by omega)]
+    have hput' : putBody { cfg with repaired := false } b (digitChar upper c) = .ok { b with body := digitChar upper c :: b.body } := by
+      unfold putBody; rw [if_pos (by simp; omega)]
+    simp only [hc, hput, hput', bind, Except.bind, hw, arithP_modf, modf_fin]
+    rw [show ipOf w = .fin false (FV.flr w) from rfl, ne_zero_fin L p]
+    by_cases hz : FV.flr w = 0
+    · simp [hz]
+    · have hm9 : ¬ m ≤ 9 := fun h => hz (hw9 h)
+      have hm1 : 1 ≤ m := by linarith [not_le.mp hm9]
+      have hk1 : 1 ≤ k := by
+        by_contra hk
+        have : k = 0 := by omega
+        subst this
+        simp at hlt
+        exact hm9 (by linarith)
+      have hlt' : FV.flr w < 8 ^ k := by
+        have := hw8 hm1
+        have e : (8 : ℚ) ^ (k + 1) = 8 ^ k * 8 := by ring
+        rw [e] at hlt
+        nlinarith [flr_nonneg hw0]
+      have hguard : (!cfg.repaired || decide (Buf.used { b with body := digitChar upper c :: b.body } < cfg.size)) = true := by
+        rw [used_putBody]
+        have : b.used + 1 < cfg.size := by omega
+        simp [this]
+      simp only [hz, ne_eq, not_false_eq_true, decide_true, Bool.true_and, hguard, if_true, Bool.not_false, Bool.true_or]
+      exact ih n' (FV.flr w) { b with body := digitChar upper c :: b.body } hk1 (by omega) (flr_nonneg hw0)
+        (L.small_down hws (flr_le w)) hlt' (by rw [used_putBody]; omega)
+
 omit L S in
 theorem flr_nat_div10 (j : ℕ) : FV.flr ((j : ℚ) / 10) = ((j / 10 : ℕ) : ℚ) := by
   unfold FV.flr
